@@ -218,7 +218,7 @@ fn wal_num(name: &str) -> Option<u64> {
 /// One structural damage operation (lengths / file set may change).
 pub fn structural_damage(img: &mut Image, rng: &mut Rng) -> Option<Value> {
     let names: Vec<String> = img.files.keys().filter(|n| wal_num(n).is_some()).cloned().collect();
-    let kind = rng.below(14);
+    let kind = rng.below(16);
     if names.is_empty() && !matches!(kind, 7 | 8 | 9 | 10 | 11) {
         return None;
     }
@@ -421,6 +421,51 @@ pub fn structural_damage(img: &mut Image, rng: &mut Rng) -> Option<Value> {
             let l = a.len().min(b.len());
             a[..l].swap_with_slice(&mut b[..l]);
             Some(json!({"kind": "transpose-file-halves", "file": n}))
+        }
+        13 | 14 => {
+            // Over-long last file: a file that is full to its last block becomes the LAST file
+            // (later files removed), gets 1..2 whole blocks of valid frames appended (a block
+            // duplicated behind the end of the file), and - one time in two - an older file is
+            // resurrected in front of the run, so that the open-time GC has something to do and
+            // the writer that recovery builds on top of the over-long file has to write.
+            let mut full: Vec<String> = Vec::new();
+            for n in &names {
+                let d = &img.files[n];
+                if d.len() >= 4 * BLOCK && d.len() % BLOCK == 0 {
+                    let fr = layout::parse_frames(d);
+                    if fr.last().map(|f| f.end() + HDR > d.len()).unwrap_or(false) {
+                        full.push(n.clone());
+                    }
+                }
+            }
+            let target = if full.is_empty() { rng.pick(&names).clone() } else { rng.pick(&full).clone() };
+            let tnum = wal_num(&target)?;
+            for n in &names {
+                if wal_num(n).map(|x| x > tnum).unwrap_or(false) {
+                    img.files.remove(n);
+                }
+            }
+            let donor = rng.pick(&names).clone();
+            let dd = img.files.get(&donor).cloned().unwrap_or_else(|| img.files[&target].clone());
+            let nb = dd.len() / BLOCK;
+            if nb == 0 {
+                return None;
+            }
+            let mut appended = Vec::new();
+            for _ in 0..rng.usize(1, 2) {
+                let b = rng.usize(0, nb - 1);
+                appended.push(b);
+                let blk = dd[b * BLOCK..(b + 1) * BLOCK].to_vec();
+                img.files.get_mut(&target)?.extend_from_slice(&blk);
+            }
+            let mut resurrected = None;
+            let first = img.files.keys().filter_map(|x| wal_num(x)).min().unwrap_or(0);
+            if first > 0 && rng.chance(1, 2) {
+                let old = first - 1 - rng.below(first.min(3));
+                img.files.insert(wal_name(old), dd.clone());
+                resurrected = Some(wal_name(old));
+            }
+            Some(json!({"kind": "overlong-last-file", "file": target, "was_full": !full.is_empty(), "blocks_appended_from": {"file": donor, "blocks": appended}, "resurrected_older_file": resurrected}))
         }
         _ => {
             let n = rng.pick(&names).clone();
